@@ -23,7 +23,8 @@ from vf import fm
 from vf.core import Collector, Prop, shard_rng
 from vf.gen_tree import EXCLUDED_DIRNAMES, GIT_ENV, build_tree
 
-IGNORE_SIMPLE = ["b.md", "*.mdx", "docs/", "README.md", "d?/", "[ab].md", "# comment", "", "sp ace.md", "guide/", "c.md"]
+IGNORE_SIMPLE = ["b.md", "*.mdx", "docs/", "README.md", "d?/", "[ab].md", "# comment", "", "sp ace.md", "guide/", "c.md",
+                 "issue #12/", "n #1.md", "readme.md", "Docs/"]
 IGNORE_PATHS = ["/b.md", "docs/a.md", "/docs/", "d1/*.md", "**/c.md", "!b.md", "guide/*", "!guide/a.md", "src/**"]
 
 
@@ -35,15 +36,26 @@ def default_excludes():
 class Ref:
     """Independent reference for one tree + settings."""
 
-    def __init__(self, root, settings, ignore_lines, ignore_dir):
+    def __init__(self, root, settings, ignore_files):
+        """ignore_files: {directory: [rule lines]} — every .flowmarkignore in the tree."""
         self.root = os.path.realpath(root)
         self.s = settings
         self.include = ["*.md"] + settings.get("extend_include", [])
         base = settings["exclude"] if settings.get("exclude") is not None else default_excludes()
         self.exclude_dirs = [p.rstrip("/") for p in base + settings.get("extend_exclude", []) if p.endswith("/")]
         self.max = settings.get("files_max_size", 1048576)
-        self.rules = [self.parse_rule(x) for x in ignore_lines]
-        self.ignore_dir = os.path.realpath(ignore_dir)
+        self.ignores = {os.path.realpath(d): [self.parse_rule(x) for x in lines if x.strip() and not x.strip().startswith("#")]
+                        for d, lines in ignore_files.items()}
+
+    def governing(self, start):
+        """The one ignore file that governs a walk / glob starting at `start`: the nearest one at or above it."""
+        d = os.path.realpath(start)
+        while True:
+            if d in self.ignores:
+                return d
+            if os.path.dirname(d) == d:
+                return None
+            d = os.path.dirname(d)
 
     # --- a small matcher of gitignore semantics, written for the harness (git itself is the oracle of C18; here the
     #     rule shapes are restricted to what the generator emits: names, globs, anchored and multi-segment paths,
@@ -71,16 +83,15 @@ class Ref:
             return False
         return fnmatch.fnmatchcase(parts[0], segs[0]) and Ref.seg_match(segs[1:], parts[1:])
 
-    def rule_decision(self, path, is_dir):
-        """True = ignored, False = re-included, None = no rule matches this entry itself."""
-        try:
-            rel = os.path.relpath(path, self.ignore_dir)
-        except ValueError:
+    def rule_decision(self, path, is_dir, gov):
+        """True = ignored, False = re-included, None = no rule of the governing file matches this entry itself."""
+        if gov is None:
             return None
+        rel = os.path.relpath(path, gov)
         if rel.startswith(".."):
             return None
         parts = rel.split(os.sep)
-        for neg, dir_only, anchored, segs in reversed(self.rules):
+        for neg, dir_only, anchored, segs in reversed(self.ignores[gov]):
             if dir_only and not is_dir:
                 continue
             if anchored:
@@ -110,6 +121,7 @@ class Ref:
     def walk(self, top):
         out = []
         top = os.path.realpath(top)
+        gov = self.governing(top)
         stack = [top]
         while stack:
             d = stack.pop()
@@ -121,21 +133,22 @@ class Ref:
                 if e.is_symlink():
                     continue  # nothing is reached through a link during traversal
                 if e.is_dir(follow_symlinks=False):
-                    if not self.dir_excluded(e.name) and self.rule_decision(e.path, True) is not True:
+                    if not self.dir_excluded(e.name) and self.rule_decision(e.path, True, gov) is not True:
                         stack.append(e.path)
                 elif e.is_file(follow_symlinks=False):
-                    if self.included_name(e.name) and not self.too_big(e.path) and self.rule_decision(e.path, False) is not True:
+                    if self.included_name(e.name) and not self.too_big(e.path) and self.rule_decision(e.path, False, gov) is not True:
                         out.append(e.path)
         return out
 
     def glob_ignored(self, path, groot):
         """A glob result is unwanted if the file, or a directory between the glob root and the file, is ignored."""
         groot = os.path.realpath(groot)
-        if self.rule_decision(path, False) is True:
+        gov = self.governing(groot)
+        if self.rule_decision(path, False, gov) is True:
             return True
         d = os.path.dirname(path)
         while d.startswith(groot) and d != groot:
-            if self.rule_decision(d, True) is True:
+            if self.rule_decision(d, True, gov) is True:
                 return True
             d = os.path.dirname(d)
         return False
@@ -177,7 +190,7 @@ class C17(Prop):
             "byte limit, symlinks to files and directories inside and outside the tree, cycles and broken links) x random "
             "settings (extend_include, exclude replaced / extended, files_max_size incl. 0, force_exclude) x a .flowmarkignore at "
             "the root (basename / directory / wildcard rules) x argument lists mixing the root, sub-directories, explicit files "
-            "(also inside excluded directories and symlinks) and globs, in every order (<= 24 permutations) and under shuffled "
+            "(also inside excluded directories and symlinks), globs and a repeated root (A B A), in every order (<= 24 permutations) and under shuffled "
             "directory listings. Non-trivial: the tree has an excluded directory, a link, an oversize file or an ignore rule; "
             "distinct by hash of (tree, settings, arguments).")
     assumptions = ["gitignore support is switched off here (C18 judges it); .flowmarkignore rules are judged with git as the reference "
@@ -219,11 +232,22 @@ class C17(Prop):
             settings["files_max_size"] = r.choice([100, 100, 0, 1048576, 3])
             settings["force_exclude"] = r.random() < 0.3
             ign = []
+            ignore_files = {}
+            pats = IGNORE_SIMPLE + (IGNORE_PATHS if case.get("hostile_ignore") else [])
             if r.random() < 0.5:
-                ign = r.sample(IGNORE_SIMPLE + (IGNORE_PATHS if case.get("hostile_ignore") else []), r.randint(1, 3))
-                with open(os.path.join(root, ".flowmarkignore"), "w") as f:
-                    f.write("\n".join(ign) + "\n")
-            ref = Ref(root, settings, [x for x in ign if x.strip() and not x.startswith("#")], root)
+                ign = r.sample(pats, r.randint(1, 3))
+                ignore_files[root] = ign
+            # further ignore files below the root: each governs the walks / globs that start at or below its directory
+            # and above any deeper one (searched upward from the start directory, first one found)
+            nested_dirs = []
+            for d in [d for d in t["dirs"] if d and not any(c in EXCLUDED_DIRNAMES for c in d.split("/"))]:
+                if r.random() < 0.3 and len(nested_dirs) < 2:
+                    nested_dirs.append(d)
+                    ignore_files[os.path.join(root, d)] = r.sample(pats, r.randint(1, 2))
+            for d, lines in ignore_files.items():
+                with open(os.path.join(d, ".flowmarkignore"), "w") as f:
+                    f.write("\n".join(lines) + "\n")
+            ref = Ref(root, settings, ignore_files)
             files = sorted(t["files"])
             subdirs = [d for d in t["dirs"] if d]
             pool = ["."]
@@ -234,8 +258,15 @@ class C17(Prop):
             pool += [k for k in t["links"] if t["links"][k][0] in ("file-in", "file-out")][:1]
             if use_glob:
                 pool += r.sample(["*.md", "*/*.md", "**/*.md", "docs/*.md", "d?/*.md", "**/*.mdx"], 2)
+            for d in nested_dirs:
+                pool.append(d)
+                if use_glob:
+                    pool.append(d + "/*.md")
             args = r.sample(pool, r.randint(1, min(4, len(pool))))
-            nontrivial = bool(t["links"] or ign or any(d.split("/")[-1] in EXCLUDED_DIRNAMES for d in t["dirs"]) or
+            if len(args) >= 2 and r.random() < 0.3:
+                # the same root again later in the list (A B A): a resolver must not carry state from B into A's second visit
+                args.append(args[0])
+            nontrivial = bool(t["links"] or ignore_files or any(d.split("/")[-1] in EXCLUDED_DIRNAMES for d in t["dirs"]) or
                               any(s > 100 for s in t["files"].values()))
             cfg = self.FRC(**settings)
             cwd = os.getcwd()
@@ -260,7 +291,7 @@ class C17(Prop):
                     missing = sorted(set(want) - set(gotr))
                     why = self.explain((extra + missing)[0], bool(extra), ref, t, root, args)
                     col.violation("exact", f"C17/{'listed-but-unwanted' if extra else 'wanted-but-missing'}/{why}", case,
-                                  {"args": args, "settings": settings, "flowmarkignore": ign,
+                                  {"args": args, "settings": settings, "flowmarkignore": {os.path.relpath(d, root): v for d, v in ignore_files.items()},
                                    "extra": [os.path.relpath(p, root) for p in extra[:4]], "missing": [os.path.relpath(p, root) for p in missing[:4]]})
                 # order independence: argument permutations and directory listing order
                 perms = list(itertools.permutations(args))
@@ -285,7 +316,7 @@ class C17(Prop):
             for a in args:
                 col.hist("arg_kinds", "glob" if any(c in a for c in "*?[") else ("dir" if os.path.isdir(os.path.join(root, a)) else "file"))
             if case["seed"] % 5 == 0:
-                col.sample({"dirs": t["dirs"], "links": {k: v[0] for k, v in t["links"].items()}, "settings": settings, "flowmarkignore": ign,
+                col.sample({"dirs": t["dirs"], "links": {k: v[0] for k, v in t["links"].items()}, "settings": settings, "flowmarkignore": {os.path.relpath(d, root): v for d, v in ignore_files.items()},
                             "args": args, "result": [os.path.relpath(p, root) for p in want][:8]})
         finally:
             shutil.rmtree(base, ignore_errors=True)
@@ -338,8 +369,8 @@ class C17(Prop):
         for k, (kind, target) in t["links"].items():
             if os.path.realpath(os.path.join(root, k)) == path and kind.startswith("file"):
                 return "reached-through-symlink/file-link"
-        if ref.rule_decision(path, False) is True or ref.glob_ignored(path, root):
-            return "flowmarkignore-rule"
+        if any(ref.rule_decision(path, False, g) is True for g in ref.ignores) or ref.glob_ignored(path, root):
+            return "flowmarkignore-rule" + ("/nested-file" if len(ref.ignores) > 1 or root not in ref.ignores else "")
         if ref.in_excluded_dir(path, root):
             return "excluded-directory" + ("/via-glob" if any(c in a for a in args for c in "*?[") else "")
         if ref.too_big(path):
